@@ -46,6 +46,8 @@ func init() {
 		}
 		m["switch_reader_windows"] = 6
 		m["switch_reader_released_then_converged"] = 6
+		m["switch_primary_internal_lock_refused_under_reader"] = 6
+		m["switch_primary_reader_refused_under_internal_lock"] = 6
 		return m
 	}
 	chk.Rule += "; (+ mode-switch cases: a WAL database is switched to a rollback-journal mode on the primary and the switch is applied on a replica by LiteFS itself; a rollback-mode reader then holds SHARED on the replica while the primary commits: the replica's position must not move and the reader's bytes must not change until it unlocks; counters switch_*)"
@@ -121,6 +123,42 @@ func runC11Switch(c *core.Case, k int) {
 		return
 	}
 	c.Count("switch_applied_on_replica", 1)
+	// ---- on the primary itself: after its application switched the mode, LiteFS's
+	// own writers (import, halt, checkpoint, recovery all start with this lock set)
+	// must take the rollback-mode locks. A reader holding SHARED keeps them out, and
+	// while they hold the lock no reader gets in.
+	{
+		const pOwner = 78
+		pf, err := P.Node.Open("db")
+		if err != nil {
+			c.Violate("C11/setup", "open on primary: "+err.Error(), detail)
+			return
+		}
+		if lockRetry(pf, pOwner, pager.PendingByte, pager.PendingByte, false, 2000) == nil &&
+			lockRetry(pf, pOwner, pager.SharedFirst, pager.SharedFirst+pager.SharedSize-1, false, 2000) == nil {
+			_ = pf.Unlock(pOwner, pager.PendingByte, pager.PendingByte)
+			if gs := P.Store.DB("db").TryAcquireWriteLock(); gs != nil {
+				gs.Unlock()
+				pf.Close(pOwner)
+				c.Violate("C11/internal-lock-granted-under-reader", fmt.Sprintf("on the primary a rollback-mode reader holds SHARED, yet LiteFS's internal write lock was granted; the application had switched the database from WAL to %s", mode), detail)
+				return
+			}
+			c.Count("switch_primary_internal_lock_refused_under_reader", 1)
+			_ = pf.Unlock(pOwner, pager.SharedFirst, pager.SharedFirst+pager.SharedSize-1)
+			if gs := P.Store.DB("db").TryAcquireWriteLock(); gs != nil {
+				e1 := pf.Lock(pOwner, pager.PendingByte, pager.PendingByte, false)
+				e2 := pf.Lock(pOwner, pager.SharedFirst, pager.SharedFirst+pager.SharedSize-1, false)
+				gs.Unlock()
+				if e1 == nil && e2 == nil {
+					pf.Close(pOwner)
+					c.Violate("C11/reader-admitted-under-internal-lock", fmt.Sprintf("on the primary LiteFS holds its internal write lock, yet a rollback-mode reader obtained PENDING and SHARED; the application had switched the database from WAL to %s", mode), detail)
+					return
+				}
+				c.Count("switch_primary_reader_refused_under_internal_lock", 1)
+			}
+		}
+		pf.Close(pOwner)
+	}
 	// a rollback-mode reader on the replica: PENDING shared, SHARED shared, PENDING released
 	const owner = 77
 	f, err := R.Node.Open("db")
